@@ -8,7 +8,7 @@ From Verif.Base Require Import Bytes.
 From Verif.Topics Require Import Predefined.
 From Verif.Codec Require Import Packets Decode Encode RefParse.
 From Verif.Checkers Require Import ChkCodec ChkGw ChkGw2 ChkGw3 ChkGw4 ChkCl ChkCl2 ChkCl3 ChkE2E.
-From Verif.Gateway Require Import GwTypes GwStep Sound_C07C08C09.
+From Verif.Gateway Require Import GwTypes GwStep Sound_C07C08C09 Sound_Timed.
 From Verif.Match Require Import Match.
 From Verif.Util Require Import IdSeq.
 From Verif.Txn Require Import Txn.
@@ -32,4 +32,4 @@ Extraction "model.ml"
   parse_options tool_cfg gateway_starts client_tool_starts parse_line
   chk_C23c chk_C27 chk_C17 chk_C31c cmon_init cmon_step
   sys_init sys_step sys_run broker_init cl_next_deadline gw_next_deadline
-  emon_init emon_step mon6_init mon6_step chk_C06c.
+  emon_init emon_step mon6_init mon6_step chk_C06c c34_excluded clock_ok.
